@@ -419,6 +419,7 @@ def uf_family(run, r, n):
     iv = [Var(nm, IntType) for nm in ('i', 'j', 'k')]
     rv = [Var(nm, RealType) for nm in ('a', 'b', 'c')]
     stats = dict(cases=0, accepted=0, judged=0, valid=0)
+    prod_cases = []
 
     def sterm(d=1):
         c = r.random()
@@ -445,6 +446,8 @@ def uf_family(run, r, n):
         except Exception as e:
             th, err = None, type(e).__name__
         run.stat('uf:%s:%s:%s' % (rule, origin, 'accepted' if th is not None else err))
+        if rule == 'verit_prod_simplify' and len(args) == 1 and args[0].is_equals():
+            prod_cases.append((args[0], th is not None))
         run.count(('uf', rule, tuple(sstr(a) for a in args), tuple(sstr(p) for p in prevs)), nontrivial=th is not None)
         args_show = [sstr(a) for a in args]
         if th is None:
@@ -756,6 +759,47 @@ def uf_family(run, r, n):
             for lhs in shapes:
                 for rhs in rhss:
                     offer(rule, [Eq(lhs, rhs)], [], 'bank')
+    # model correspondence for prod_simplify: the acceptance test ProdSimp.accept (proved sound over the integers and the
+    # rationals) against the evaluation of the macro on every product goal offered above
+    from fractions import Fraction
+
+    def to_pexp(t, T, table):
+        if t.is_times():
+            return '(PMul %s %s)' % (to_pexp(t.arg1, T, table), to_pexp(t.arg, T, table))
+        if t.is_number():
+            v = Fraction(t.dest_number())
+            if T == IntType:
+                return '(PNum (%d)%%Z)' % int(v)
+            return '(PNum (Q2Qc ((%d) # %d)%%Q))' % (v.numerator, v.denominator)
+        return '(PAtom %d)' % table.setdefault(repr(t), len(table))
+    pexprs, pmeta = [], []
+    for goal, acc in prod_cases:
+        lhs, rhs = goal.args
+        prod_side = lhs if lhs.is_times() else rhs
+        try:
+            T = prod_side.get_type()
+        except Exception:
+            continue
+        if T not in (IntType, RealType) or lhs.get_type() != T or rhs.get_type() != T:
+            continue
+        table = {}
+        try:
+            pexprs.append('case_prod_%s %s %s %s' % ('Z' if T == IntType else 'Qc', to_pexp(lhs, T, table), to_pexp(rhs, T, table), 'true' if acc else 'false'))
+            pmeta.append((goal, acc))
+        except RecursionError:
+            raise
+        except Exception as e:
+            run.stat('prod_model_outside:' + type(e).__name__)
+    pcodes = coq_eval_nats(run.wd, 'ProdSimp', pexprs, defs='From Coq Require Import Qcanon.', tag='prod', shard=300)
+    pdis = 0
+    for (goal, acc), code in zip(pmeta, pcodes):
+        if code != 1:
+            pdis += 1
+            if pdis <= 4:
+                run.violation('correspondence', 'correspondence:C18/prod_simplify: the macro %s %s, the model ProdSimp.accept does not' % (
+                                  'accepts' if acc else 'rejects', sstr(goal)),
+                              dict(correspondence='C18/prod_simplify', goal=sstr(goal), impl_accepts=acc), failing_input=False)
+    stats['prod_simplify_model'] = dict(cases=len(pexprs), accepted=sum(1 for _, a_ in pmeta if a_), disagree=pdis)
     return stats
 
 
